@@ -7,7 +7,9 @@ GCP optimizers; RNG who-may-call over all modules):
             (a) define a value that reaches a branch / loop condition outside presentation code,
             (b) rebind, or mutate other than by the Kruskal re-parameterisations normalize / arrange / redistribute /
                 fixsigns, an object in the backward slice of the returned model,
-            (c) draw from a random stream,
+            (b') inside an iteration, even a pure re-parameterisation done only when printing must be followed by
+               redistribute()/normalize() before the model's components are read again (scale-dependent steps),
+          (c) draw from a random stream,
             (d) transfer control (return / break / continue / raise)
           a test that only applies isinstance / callable to the parameter is type validation, not presentation
   RNG     random draws use only the global legacy stream np.random.<fn> (same seed => same start); no private
@@ -196,6 +198,16 @@ def check_function(prog: Program, res: Result, eng: al.Engine, fi: FuncInfo) -> 
                             base = base.value
                         if isinstance(base, ast.Name) and base.id in model_names and not isinstance(t, ast.Name):
                             problems.append(f"`{ast.unparse(t)[:50]} = ...` writes into the model only when printing")
+        # (b') a print-only re-parameterisation inside a loop: harmless only if the parameterisation is re-established
+        #      (redistribute / normalize) before the model's components are read again
+        rl = loops_of(r.node)
+        if rl:
+            touched = _reparam_targets(r.stmts, model_names, eng)
+            for mname, via in touched:
+                nxt = _next_model_use(rl[0], r.node, mname)
+                if nxt is not None and not nxt[0]:
+                    problems.append(f"{via} re-parameterises `{mname}` only when printing, and the next use `{nxt[1]}` reads its components "
+                                    "before redistribute()/normalize() re-establishes the parameterisation: scale-dependent steps then differ")
         where = prog.loc(fi, r.node)
         if problems:
             res.bad("TAINT", fi.short, desc, where, "; ".join(sorted(set(problems)))[:500])
@@ -206,6 +218,65 @@ def check_function(prog: Program, res: Result, eng: al.Engine, fi: FuncInfo) -> 
             res.ok("TAINT", fi.short, f"`{canon.text(r.node.test)[:80]}` is type validation of the parameter, not presentation", prog.loc(fi, r.node),
                    nontrivial=False)
     return n_regions
+
+
+def _reparam_targets(stmts, model_names, eng):
+    """(model name, description) for calls in the region that re-parameterise a model object in place."""
+    out = []
+    for st in stmts:
+        for n in ast.walk(st):
+            if not isinstance(n, ast.Call):
+                continue
+            if isinstance(n.func, ast.Attribute) and isinstance(n.func.value, ast.Name) and n.func.value.id in model_names \
+                    and n.func.attr in taint.REPARAM:
+                out.append((n.func.value.id, f"`{ast.unparse(n)[:50]}`"))
+            elif isinstance(n.func, ast.Name):
+                for idx, a in enumerate(n.args):
+                    if isinstance(a, ast.Name) and a.id in model_names:
+                        for c in eng.by_name.get(n.func.id, []):
+                            s_ = eng.sums.get(c.qualname)
+                            pn = c.params()[idx] if idx < len(c.params()) else None
+                            if s_ and pn and any(p_.split(".")[0] == pn for p_, _g in s_.mut):
+                                out.append((a.id, f"`{n.func.id}(...)` (which normalises its argument in place)"))
+    return out
+
+
+def _next_model_use(loop, region: ast.If, mname: str):
+    """First use of the model after the region in loop order: (is a re-parameterising call, text) or None."""
+    order = []
+
+    def flat(body):
+        for st in body:
+            order.append(st)
+            for f in ("body", "orelse"):
+                sub = getattr(st, f, None)
+                if isinstance(sub, list) and sub and isinstance(sub[0], ast.stmt) and st is not region:
+                    flat(sub)
+
+    flat(loop.body)
+    if region not in order:
+        return None
+    i = order.index(region)
+    seq = order[i + 1:] + order[:i]
+    for st in seq:
+        if any(x is region for x in ast.walk(st)):
+            heads = [st.test] if isinstance(st, (ast.If, ast.While)) else [st.iter] if isinstance(st, ast.For) else []
+        elif isinstance(st, (ast.If, ast.While)):
+            heads = [st.test]
+        elif isinstance(st, ast.For):
+            heads = [st.iter]
+        elif isinstance(st, (ast.With, ast.Try)):
+            heads = []
+        else:
+            heads = [st]
+        for h in heads:
+            for n in ast.walk(h):
+                if isinstance(n, ast.Name) and n.id == mname:
+                    if isinstance(h, ast.Expr) and isinstance(h.value, ast.Call) and isinstance(h.value.func, ast.Attribute) \
+                            and isinstance(h.value.func.value, ast.Name) and h.value.func.value.id == mname and h.value.func.attr in taint.REPARAM:
+                        return True, ast.unparse(h)[:60]
+                    return False, ast.unparse(h)[:60]
+    return None
 
 
 def check(prog: Program, res: Result, tier: str) -> None:
